@@ -43,6 +43,7 @@ fn main() {
         let n: usize = arg(&args, "--n").and_then(|s| s.parse().ok()).unwrap_or(10);
         match prop.as_str() {
             "C10" => rrss_verif::props::c10::emit(&dir, seed, n),
+            "C20" => rrss_verif::props::c20::emit(&dir, seed, n),
             _ => {
                 eprintln!("emit: unknown property {}", prop);
                 std::process::exit(2);
